@@ -12,7 +12,7 @@
  *   uri    coap_split_uri, coap_uri_into_optlist, coap_path_into_optlist, coap_query_into_optlist, coap_add_optlist_pdu,
  *          coap_get_uri_path, coap_get_query, coap_new_uri/clone, coap_new_string/str_const/bin_const/binary+resize
  *   pdu    coap_pdu_init, token, options and payload with growth, coap_pdu_duplicate, coap_pdu_parse of the result
- *   rr     CON GET (piggybacked 2.05) + NON GET + CON GET to an unknown resource (4.04), client <-> server
+ *   rr     CON GET (piggybacked 2.05) + NON GET + CON GET ?a=1 to an unknown resource (4.04) + PUT ?b=2 without handler (4.05)
  *   b1     PUT of a 2500-byte body with libcoap's Block1 handling (coap_add_data_large_request, SINGLE_BODY server)
  *   b2     GET of a 2500-byte body with libcoap's Block2 handling (coap_add_data_large_response, SINGLE_BODY client)
  *   obs    observe register + two notifications + cancel (coap_cancel_observe)
@@ -33,6 +33,9 @@
  *   obsre  observer life cycle: FETCH registration with payload, the same request under a new token (replacement through
  *          the cache key), a second subscription (GET with query), deregistration by a token the server never saw,
  *          coap_delete_resource while observed
+ *   obsfetch  FETCH observations with the client's block handling ON: small body, 2500-byte body sent block-wise (one Observe
+ *          token kept per block), notifications, coap_cancel_observe of both
+ *   b1o.<digits>  the five hand-built Block1 requests of b1raw in the order given (digits 0..4, repeats allowed)
  *
  * after the canary (every scenario): refs=<ok | list of sessions whose reference count differs from the number of their
  * holders> idle=<server sessions without holder that survive the session timeout>
@@ -57,7 +60,10 @@
  *
  * link: SIM_WRAPS + --wrap=coap_malloc_type,--wrap=coap_realloc_type,--wrap=coap_free_type,--wrap=epoll_wait
  */
+#define NDEBUG 1            /* as the shipped library build (RelWithDebInfo) */
 #include "sim_core.h"
+#include "coap_block.c"     /* static functions (track_fetch_observe) become reachable for the atrack scripts; the archive
+                             * member of libcoap-3.a is then not linked: the whole catalogue runs THIS compilation of the file */
 #include <sanitizer/lsan_interface.h>
 #include <link.h>
 #include <signal.h>
@@ -354,6 +360,9 @@ static coap_response_t on_response(coap_session_t *session, const coap_pdu_t *se
     /* obsre: token 67 xx, bit 7 of xx = registered by a FETCH with payload "Q1": the representation must show it */
     if (tk.length == 2 && tk.s[0] == 0x67 && COAP_RESPONSE_CLASS(code) == 2 && coap_get_data(rcvd, &len, &data) && len == 3 &&
         data[0] == 'v' && data[2] != ((tk.s[1] & 0x80) ? 'Q' : '-')) { c_body_bad++; out_put("lostbody:%02x", tk.s[1]); }
+    /* obsfetch: token 68 xx, registered by a FETCH whose body starts with 'Q' (81: two bytes) / body[0] (82: 2500 bytes) */
+    if (tk.length == 2 && tk.s[0] == 0x68 && COAP_RESPONSE_CLASS(code) == 2 && coap_get_data(rcvd, &len, &data) && len == 3 &&
+        data[0] == 'v' && data[2] != (tk.s[1] == 0x82 ? body[0] : 'Q')) { c_body_bad++; out_put("lostbody:%02x", tk.s[1]); }
     /* async: token 66 03 = the PUT with payload "P1": the delayed answer must show it */
     if (tk.length == 2 && tk.s[0] == 0x66 && tk.s[1] == 0x03 && COAP_RESPONSE_CLASS(code) == 2 && coap_get_data(rcvd, &len, &data) &&
         len == 3 && data[0] == 'a' && data[2] != 'P') { c_body_bad++; out_put("lostbody:66"); }
@@ -643,7 +652,13 @@ static void scn_rr(void) {
   p = new_req(COAP_MESSAGE_NON, COAP_REQUEST_CODE_GET, (const uint8_t *)"\x03", 1, "r");
   if (!p) out_put("pdu-fail"); else tracked_send(cs, p);
   settle(120000);
+  /* error responses for requests WITH a query (handle_request's fail_response path owns path and query strings) */
   p = new_req(COAP_MESSAGE_CON, COAP_REQUEST_CODE_GET, (const uint8_t *)"\x04", 1, "nope");
+  if (p && !coap_add_option(p, COAP_OPTION_URI_QUERY, 3, (const uint8_t *)"a=1")) { coap_delete_pdu(p); p = NULL; }
+  if (!p) out_put("pdu-fail"); else tracked_send(cs, p);
+  settle(120000);
+  p = new_req(COAP_MESSAGE_CON, COAP_REQUEST_CODE_PUT, (const uint8_t *)"\x05", 1, "r");
+  if (p && !coap_add_option(p, COAP_OPTION_URI_QUERY, 3, (const uint8_t *)"b=2")) { coap_delete_pdu(p); p = NULL; }
   if (!p) out_put("pdu-fail"); else tracked_send(cs, p);
   settle(120000);
 }
@@ -664,6 +679,37 @@ static void scn_b2(void) {
   tracked_send(cs, p);
   settle(300000);
 }
+/* coap_cancel_observe; when it fails BECAUSE one of its own allocation requests failed, the same call is made again: with
+ * memory available it must succeed ("cancelr1") unless the observation has ended meanwhile (the cancellation did go out before
+ * the request that failed, or the client has dropped its state for the request: "cancelr0:gone"); "cancelr0:kept" = the
+ * server still notifies, the client still holds the request's lg_crcv, and the API refuses to cancel;
+ * a '!' marks a repeat after (or hit by) the second failing request of a pair */
+static unsigned subs_count(coap_resource_t *r) {
+  unsigned n = 0;
+  coap_subscription_t *s;
+  if (r) LL_FOREACH(r->subscribers, s) n++;
+  return n;
+}
+static void cancel_and_retry(coap_resource_t *r, coap_binary_t *t, unsigned settle_ms) {
+  unsigned subs0 = subs_count(r);
+  int before = af_nfailed, rc = coap_cancel_observe(cs, t, COAP_MESSAGE_CON), hit = af_nfailed > before;
+  out_put("cancel%d", rc);
+  before = af_nfailed;              /* a second failure from here on (while the exchange settles, in the repeat) excuses the repeat */
+  settle(settle_ms);
+  if (!rc && hit) {
+    rc = coap_cancel_observe(cs, t, COAP_MESSAGE_CON);
+    settle(settle_ms);
+    if (rc) out_put("cancelr1%s", af_nfailed > before ? "!" : "");
+    else {
+      /* still an observation as far as the client is concerned: it keeps the lg_crcv of the request (responses are matched
+       * to it, nothing else would answer a notification with RST) */
+      coap_lg_crcv_t *lg;
+      int held = 0;
+      LL_FOREACH(cs->lg_crcv, lg) if (lg->app_token && lg->app_token->length == t->length && !memcmp(lg->app_token->s, t->s, t->length)) held = 1;
+      out_put("cancelr0:%s%s", subs_count(r) < subs0 || !held ? "gone" : "kept", af_nfailed > before ? "!" : "");
+    }
+  }
+}
 static void scn_obs(void) {
   coap_pdu_t *p;
   uint8_t tok[2] = {0x31, 0x32};
@@ -681,8 +727,7 @@ static void scn_obs(void) {
     sim_now += 10;
     settle(120000);
   }
-  out_put("cancel%d", coap_cancel_observe(cs, &t, COAP_MESSAGE_CON));
-  settle(120000);
+  cancel_and_retry(r_obs, &t, 120000);
   obs_val++;
   out_put("notify%d", coap_resource_notify_observers(r_obs, NULL));
   settle(120000);
@@ -921,8 +966,7 @@ static void scn_obsblk(void) {
     sim_now += 10;
     settle(300000);
   }
-  out_put("cancel%d", coap_cancel_observe(cs, &t, COAP_MESSAGE_CON));
-  settle(300000);
+  cancel_and_retry(r, &t, 300000);
   obody[0] = 0xbf;
   out_put("notify%d", coap_resource_notify_observers(r, NULL));
   settle(300000);
@@ -973,6 +1017,59 @@ static void scn_obsre(void) {
   sim_now += 10; settle(120000);
   out_put("delres%d", coap_delete_resource(srv, r));
   settle(120000);
+}
+
+/* FETCH observations with libcoap's block handling ON at the client (coap_send sets up an lg_crcv for the request and keeps
+ * the token of every block of the request in its list of Observe tokens): a FETCH with a two-byte body, a FETCH whose
+ * 2500-byte body goes out block-wise (one token per block), notifications, both cancelled with coap_cancel_observe (which
+ * sends the request again with Observe 1 under the tokens kept), then the sessions go. */
+static void obsfetch_send(int tokb, const uint8_t *data, size_t len) {
+  uint8_t t[2];
+  coap_pdu_t *p;
+  t[0] = 0x68; t[1] = (uint8_t)tokb;
+  p = new_req(COAP_MESSAGE_CON, COAP_REQUEST_CODE_FETCH, t, 2, NULL);
+  if (!p) { out_put("pdu-fail"); return; }
+  if (!coap_add_option(p, COAP_OPTION_OBSERVE, 0, NULL) ||
+      !coap_add_option(p, COAP_OPTION_URI_PATH, 4, (const uint8_t *)"obsf") ||
+      !coap_add_option(p, COAP_OPTION_CONTENT_FORMAT, 0, NULL)) { out_put("opt-fail"); coap_delete_pdu(p); return; }
+  if (len > 100 ? !coap_add_data_large_request(cs, p, len, data, NULL, NULL) : !coap_add_data(p, len, data)) {
+    out_put("large-fail"); coap_delete_pdu(p); return;
+  }
+  tracked_send(cs, p);
+  settle(300000);
+}
+static void scn_obsfetch(void) {
+  coap_resource_t *r = NULL;
+  uint8_t t1[2] = {0x68, 0x81}, t2[2] = {0x68, 0x82};
+  coap_binary_t b1 = {2, t1}, b2 = {2, t2};
+  if (!world_up(0, 0) || !add_res("obsf", COAP_REQUEST_GET, hnd_obsf, 1, &r)) { out_put("setup-fail"); return; }
+  coap_register_request_handler(r, COAP_REQUEST_FETCH, hnd_obsf);
+  obsfetch_send(0x81, (const uint8_t *)"Q1", 2);
+  out_put("subs%u", subs_of(r));
+  obs_val++;
+  out_put("notify%d", coap_resource_notify_observers(r, NULL));
+  sim_now += 10; settle(120000);
+  obsfetch_send(0x82, body, sizeof(body));
+  out_put("subs%u", subs_of(r));
+  obs_val++;
+  out_put("notify%d", coap_resource_notify_observers(r, NULL));
+  sim_now += 10; settle(120000);
+  cancel_and_retry(r, &b2, 300000);
+  out_put("subs%u", subs_of(r));
+  cancel_and_retry(r, &b1, 300000);
+  out_put("subs%u", subs_of(r));
+  obs_val++;
+  out_put("notify%d", coap_resource_notify_observers(r, NULL));
+  settle(120000);
+}
+/* b1o.<digits>: the five hand-built 512-byte Block1 requests of b1raw in the ORDER given by the digits (0..4, any of them
+ * any number of times: a block that is lost and repeated, the final block arriving early, and arriving again before the gap
+ * is filled), one token per request */
+static const char *b1o_order = "";
+static void scn_b1o(void) {
+  w_cli_block = 0;
+  if (!world_up(0, 0)) { out_put("setup-fail"); return; }
+  for (int i = 0; b1o_order[i]; i++) raw_put_block((unsigned)(b1o_order[i] - '0'), 0x30 + i);
 }
 static void scn_cache(void) {
   static const uint16_t ign1[2] = {COAP_OPTION_ACCEPT, COAP_OPTION_URI_QUERY}, ign2[3] = {COAP_OPTION_ACCEPT, COAP_OPTION_ETAG, COAP_OPTION_RTAG};
@@ -1107,7 +1204,7 @@ static const struct { const char *name; void (*fn)(void); } scns[] = {
   {"uri", scn_uri}, {"pdu", scn_pdu}, {"rr", scn_rr}, {"b1", scn_b1}, {"b2", scn_b2}, {"obs", scn_obs},
   {"setup", scn_setup}, {"osc", scn_osc}, {"h508", scn_h508},
   {"wkc", scn_wkc}, {"b1raw", scn_b1raw}, {"b2raw", scn_b2raw}, {"obsblk", scn_obsblk}, {"cache", scn_cache}, {"async", scn_async},
-  {"obsre", scn_obsre},
+  {"obsre", scn_obsre}, {"obsfetch", scn_obsfetch},
 };
 
 static void on_alarm(int sig) {
@@ -1145,6 +1242,7 @@ static void begin_line(void) {
   memcpy(obody, body, sizeof(body));
   raw2_served = 0; g_async = NULL; cache_cb = 0; cache_live = 0;
   af_count = 0; af_nfailed = 0; af_open = 0;
+  if (getenv("H_DEBUG")) coap_set_log_level(COAP_LOG_DEBUG);          /* debugging aid: libcoap's own log on stderr */
   tr_reset();
   memset(tr_freed, 0, sizeof(tr_freed));
 }
@@ -1174,14 +1272,18 @@ static void do_alloc(char **w, int n) {
   const char *canary;
   char cbuf[48];
   int same = 0, consumed_bad = -1, idle_left = 0;
-  for (size_t i = 0; i < sizeof(scns) / sizeof(scns[0]); i++) if (!strcmp(w[1], scns[i].name)) si = (int)i;
+  void (*fn)(void) = NULL;
+  for (size_t i = 0; i < sizeof(scns) / sizeof(scns[0]); i++) if (!strcmp(w[1], scns[i].name)) { si = (int)i; fn = scns[i].fn; }
+  if (si < 0 && !strncmp(w[1], "b1o.", 4) && w[1][4] && strlen(w[1] + 4) <= 16 && strspn(w[1] + 4, "01234") == strlen(w[1] + 4)) {
+    si = 0; fn = scn_b1o; b1o_order = w[1] + 4;
+  }
   if (si < 0 || n < 3 || n > 4) { printf("bad-op"); return; }
   begin_line();
   af_k1 = (unsigned)strtoul(w[2], NULL, 10);
   af_k2 = n == 4 ? (unsigned)strtoul(w[3], NULL, 10) : 0;
   tr_on = 1; tr_lenient = 0;
   af_open = 1;
-  scns[si].fn();
+  fn();
   af_open = 0;
   /* outcome of the failing run */
   out_put("req%d,rsp%d", s_req, c_rsp);
@@ -1369,6 +1471,248 @@ static void do_ahelp(char **w, int n) {
   end_line();
 }
 
+
+/* ------------------------------------------------------------------ scripted Block-layer containers (modelled in Lean, Model/AllocBlock.lean)
+ *
+ *   atrack <k1> <k2> <step> ...      the client's lg_crcv with its table of Observe tokens (large FETCH):
+ *       n<f|g>:<o>:<tl>:<dl>   coap_block_new_lg_crcv(client session, request, NULL); request = FETCH (f) or GET (g) with a
+ *                              <tl>-byte token, Observe <o> (e = 0 register, c = 1 cancel, x = 2, n = no option), Uri-Path,
+ *                              <dl> bytes of payload; skipped when there is one already
+ *       t<o>:<bn>:<tl>         track_fetch_observe(FETCH request with Observe <o>, lg_crcv, block <bn>, <tl>-byte token)
+ *       d                      coap_block_delete_lg_crcv
+ *     output: rc=<1|0 | N (NULL) r<len> (token returned) | 1> n=<requests> tab=<obs_token_cnt>/<token length | N per entry>
+ *             ("NULL!" = the count says there are entries while the list is NULL) T <trace of the library calls>
+ *
+ *   asrcv <k1> <k2> <szx> <bodylen> <tl> <size1|-> <step> ...   the server's lg_srcv (Block1 reassembly, SINGLE_BODY):
+ *       p<num>:<m>[:<len>]     coap_handle_request_put_block(server session, PUT /put with Block1 num/m/szx, <tl>-byte token,
+ *                              Size1 if given, payload = that slice of the body or its first <len> bytes); when the body is
+ *                              handed over, the lg_srcv is released as handle_request does after the handler
+ *       x                      the transfer state is dropped (coap_block_delete_lg_srcv, as session tear-down / expiry do)
+ *     output: rc=<d<body_length>:<1 body is the prefix of the real body | 0> | s<response code>> n=<requests>
+ *             lg=<none | <ranges>/<total_len>/<body length|->/<no_more_seen>/<last_token length|->> T <trace>
+ * Only the library calls are inside the failure window and in the trace; the requests are built outside. */
+static void lib_on(void) { tr_on = 1; af_open = 1; }
+static void lib_off(void) { tr_on = 0; af_open = 0; }
+static coap_pdu_t *trk_request(int fetch, char o, size_t tl, size_t dl, const uint8_t *val) {
+  coap_pdu_t *p = coap_pdu_init(COAP_MESSAGE_CON, fetch ? COAP_REQUEST_CODE_FETCH : COAP_REQUEST_CODE_GET, 0x2000, 1152);
+  uint8_t ov[1];
+  if (!p) return NULL;
+  coap_add_token(p, tl, val);
+  ov[0] = o == 'c' ? 1 : 2;
+  if (o != 'n') coap_add_option(p, COAP_OPTION_OBSERVE, o == 'e' ? 0 : 1, ov);
+  coap_add_option(p, COAP_OPTION_URI_PATH, 4, (const uint8_t *)"obsf");
+  if (dl) { coap_add_option(p, COAP_OPTION_CONTENT_FORMAT, 0, NULL); coap_add_data(p, dl, val); }
+  return p;
+}
+static void do_atrack(char **w, int n) {
+  static uint8_t val[64];
+  coap_lg_crcv_t *lg = NULL;
+  int first = 1;
+  char *wtrace;
+  if (n < 3) { printf("bad-op"); return; }
+  for (int i = 3; i < n; i++) {
+    const char *e = w[i];
+    unsigned a, b, c; char o, f;
+    int used = 0;
+    if (e[0] == 'n') { if (sscanf(e, "n%c:%c:%u:%u%n", &f, &o, &a, &b, &used) != 4 || e[used] || !strchr("fg", f) || !strchr("ecxn", o) || a > 8 || b > 60) { printf("bad-op"); return; } }
+    else if (e[0] == 't') { if (sscanf(e, "t%c:%u:%u%n", &o, &a, &b, &used) != 3 || e[used] || !strchr("ecxn", o) || a > 4000 || b > 8) { printf("bad-op"); return; } }
+    else if (strcmp(e, "d")) { printf("bad-op"); return; }
+    (void)c;
+  }
+  begin_line();
+  sim_tx_hook = NULL;
+  for (size_t i = 0; i < sizeof(val); i++) val[i] = (uint8_t)(i + 1);
+  tr_on = 0;
+  if (!world_up(0, 0)) { printf("setup-fail"); world_down(); return; }
+  af_k1 = (unsigned)strtoul(w[1], NULL, 10);
+  af_k2 = (unsigned)strtoul(w[2], NULL, 10);
+  tr_lenient = 1;
+  printf("rc=");
+  for (int i = 3; i < n; i++) {
+    const char *e = w[i];
+    char rcs[32] = "-";
+    unsigned a = 0, b = 0; char o = 'n', f = 'f';
+    if (e[0] == 'n') {
+      sscanf(e, "n%c:%c:%u:%u", &f, &o, &a, &b);
+      if (!lg) {
+        coap_pdu_t *p = trk_request(f == 'f', o, a, b, val);
+        if (p) {
+          coap_lock_lock(cli, break);
+          lib_on();
+          lg = coap_block_new_lg_crcv(cs, p, NULL);
+          lib_off();
+          coap_lock_unlock(cli);
+          coap_delete_pdu(p);
+          snprintf(rcs, sizeof(rcs), "%d", !!lg);
+        }
+      }
+    } else if (e[0] == 't') {
+      sscanf(e, "t%c:%u:%u", &o, &a, &b);
+      if (lg) {
+        coap_pdu_t *p = trk_request(1, o, 2, 0, val);
+        if (p) {
+          coap_bin_const_t tk = { b, val }, *r;
+          coap_lock_lock(cli, break);
+          lib_on();
+          r = track_fetch_observe(p, lg, a, &tk);
+          lib_off();
+          coap_lock_unlock(cli);
+          coap_delete_pdu(p);
+          if (r) snprintf(rcs, sizeof(rcs), "r%zu", r->length); else strcpy(rcs, "N");
+        }
+      }
+    } else if (lg) {
+      coap_lock_lock(cli, break);
+      lib_on();
+      coap_block_delete_lg_crcv(cs, lg);
+      lib_off();
+      coap_lock_unlock(cli);
+      lg = NULL;
+      strcpy(rcs, "1");
+    }
+    printf("%s%s", first ? "" : ",", rcs);
+    first = 0;
+  }
+  if (first) printf("-");
+  printf(" n=%u tab=", af_count);
+  if (!lg) printf("none");
+  else {
+    printf("%zu/", lg->obs_token_cnt);
+    if (!lg->obs_token_cnt) printf("-");
+    else if (!lg->obs_token) printf("NULL!");
+    else for (size_t i = 0; i < lg->obs_token_cnt; i++) {
+      if (i) printf(",");
+      if (lg->obs_token[i]) printf("%zu", lg->obs_token[i]->length); else printf("N");
+    }
+  }
+  wtrace = tr_len ? strdup(tr_buf) : strdup("-");
+  printf(" T %s", wtrace);
+  free(wtrace);
+  /* tear-down: the lg_crcv as the session would release it, then the world */
+  tr_on = 1;
+  if (lg) { coap_lock_lock(cli, return); coap_block_delete_lg_crcv(cs, lg); coap_lock_unlock(cli); }
+  world_down();
+  tr_on = 0;
+  end_line();
+}
+
+static void srcv_show(coap_session_t *ss) {
+  coap_lg_srcv_t *lg = ss->lg_srcv;
+  printf(" lg=");
+  if (!lg) { printf("none"); return; }
+  if (!lg->rec_blocks.used) printf("-");
+  for (uint32_t i = 0; i < lg->rec_blocks.used; i++) printf("%s%u-%u", i ? ";" : "", lg->rec_blocks.range[i].begin, lg->rec_blocks.range[i].end);
+  printf("/%zu/", lg->total_len);
+  if (lg->body_data) printf("%zu", lg->body_data->length); else printf("-");
+  printf("/%d/", (int)lg->no_more_seen);
+  if (lg->last_token) printf("%zu", lg->last_token->length); else printf("-");
+  if (lg->next) printf("+more");
+}
+static void do_asrcv(char **w, int n) {
+  coap_session_t *ss = NULL, *s, *tmp;
+  coap_resource_t *res;
+  coap_string_t *uri;
+  unsigned szx, tl;
+  size_t blen, chunk;
+  long size1 = -1;
+  int first = 1;
+  char *wtrace;
+  if (n < 7) { printf("bad-op"); return; }
+  szx = (unsigned)strtoul(w[3], NULL, 10); blen = strtoul(w[4], NULL, 10); tl = (unsigned)strtoul(w[5], NULL, 10);
+  if (szx > 6 || blen > sizeof(body) || tl > 8) { printf("bad-op"); return; }
+  if (strcmp(w[6], "-")) { char *end; size1 = strtol(w[6], &end, 10); if (*end || size1 < 0) { printf("bad-op"); return; } }
+  for (int i = 7; i < n; i++) {
+    unsigned a, b, c; int used = 0;
+    if (!strcmp(w[i], "x")) continue;
+    if (sscanf(w[i], "p%u:%u:%u%n", &a, &b, &c, &used) == 3 && !w[i][used] && b <= 1 && a < 100000) continue;
+    used = 0;
+    if (sscanf(w[i], "p%u:%u%n", &a, &b, &used) == 2 && !w[i][used] && b <= 1 && a < 100000) continue;
+    printf("bad-op"); return;
+  }
+  chunk = (size_t)1 << (szx + 4);
+  begin_line();
+  tr_on = 0;
+  if (!world_up(0, 0)) { printf("setup-fail"); world_down(); return; }
+  {
+    coap_pdu_t *p = new_req(COAP_MESSAGE_NON, COAP_REQUEST_CODE_GET, (const uint8_t *)"\x70", 1, "r");
+    if (p) coap_send(cs, p);
+    settle(10000);
+    sim_tx_hook = NULL; npending = 0;
+    SESSIONS_ITER(ep->sessions, s, tmp) ss = s;
+  }
+  {
+    coap_str_const_t pth = { 3, (const uint8_t *)"put" };
+    coap_lock_lock(srv, return);
+    res = coap_get_resource_from_uri_path_lkd(srv, &pth);
+    coap_lock_unlock(srv);
+  }
+  uri = coap_new_string(3);
+  if (!ss || !res || !uri) { printf("setup-fail"); coap_delete_string(uri); world_down(); return; }
+  memcpy(uri->s, "put", 3);
+  af_k1 = (unsigned)strtoul(w[1], NULL, 10);
+  af_k2 = (unsigned)strtoul(w[2], NULL, 10);
+  tr_lenient = 1;
+  printf("rc=");
+  for (int i = 7; i < n; i++) {
+    char rcs[48] = "-";
+    if (w[i][0] == 'x') {
+      coap_lock_lock(srv, break);
+      lib_on();
+      while (ss->lg_srcv) { coap_lg_srcv_t *lg = ss->lg_srcv; LL_DELETE(ss->lg_srcv, lg); coap_block_delete_lg_srcv(ss, lg); }
+      lib_off();
+      coap_lock_unlock(srv);
+      strcpy(rcs, "1");
+    } else {
+      unsigned num = 0, m = 0, len = 0;
+      int nf = sscanf(w[i], "p%u:%u:%u", &num, &m, &len), added = 0, ret;
+      size_t off = (size_t)num * chunk, plen;
+      uint8_t buf[4], tk[8];
+      coap_pdu_t *req, *rsp;
+      coap_lg_srcv_t *free_lg = NULL;
+      if (off > blen) off = blen;
+      plen = blen - off < chunk ? blen - off : chunk;
+      if (nf == 3 && len <= blen - off) plen = len;
+      memset(tk, 0x77, sizeof(tk)); tk[0] = (uint8_t)(i & 0xff);
+      req = coap_pdu_init(COAP_MESSAGE_CON, COAP_REQUEST_CODE_PUT, (coap_mid_t)(0x3000 + i), 2048);
+      rsp = coap_pdu_init(COAP_MESSAGE_ACK, 0, (coap_mid_t)(0x3000 + i), 1152);
+      if (req && rsp) {
+        coap_add_token(req, tl, tk);
+        coap_add_token(rsp, tl, tk);
+        coap_add_option(req, COAP_OPTION_URI_PATH, 3, (const uint8_t *)"put");
+        coap_add_option(req, COAP_OPTION_BLOCK1, coap_encode_var_safe(buf, sizeof(buf), (num << 4) | (m << 3) | szx), buf);
+        if (size1 >= 0) coap_add_option(req, COAP_OPTION_SIZE1, coap_encode_var_safe(buf, sizeof(buf), (unsigned)size1), buf);
+        if (plen) coap_add_data(req, plen, body + off);
+        coap_lock_lock(srv, break);
+        lib_on();
+        ret = coap_handle_request_put_block(srv, ss, req, rsp, res, uri, NULL, &added, &free_lg);
+        if (ret == 0) {
+          size_t l = 0, o = 0, t = 0; const uint8_t *d = NULL;
+          coap_get_data_large(req, &l, &d, &o, &t);
+          snprintf(rcs, sizeof(rcs), "d%zu:%d", l, o == 0 && l <= sizeof(body) && (!l || (d && !memcmp(d, body, l))));
+          if (free_lg) { LL_DELETE(ss->lg_srcv, free_lg); coap_block_delete_lg_srcv(ss, free_lg); }
+        } else snprintf(rcs, sizeof(rcs), "s%d", (int)rsp->code);
+        lib_off();
+        coap_lock_unlock(srv);
+      }
+      coap_delete_pdu(req);
+      coap_delete_pdu(rsp);
+    }
+    printf("%s%s", first ? "" : ",", rcs);
+    first = 0;
+  }
+  if (first) printf("-");
+  printf(" n=%u", af_count);
+  srcv_show(ss);
+  wtrace = tr_len ? strdup(tr_buf) : strdup("-");
+  printf(" T %s", wtrace);
+  free(wtrace);
+  coap_delete_string(uri);
+  tr_on = 1;
+  world_down();
+  tr_on = 0;
+  end_line();
+}
+
 static void step(char *line) {
   static char *w[512];
   int n = h_words(line, w, 512);
@@ -1376,6 +1720,8 @@ static void step(char *line) {
   alarm(60);
   if (n >= 1 && !strcmp(w[0], "alloc")) do_alloc(w, n);
   else if (n >= 1 && !strcmp(w[0], "ahelp")) do_ahelp(w, n);
+  else if (n >= 1 && !strcmp(w[0], "atrack")) do_atrack(w, n);
+  else if (n >= 1 && !strcmp(w[0], "asrcv")) do_asrcv(w, n);
   else printf("bad-op");
   alarm(0);
 }
